@@ -67,6 +67,20 @@ Proof.
   apply IH in H. eapply In_pdel; exact H.
 Qed.
 
+Lemma In_pdel_neq x y p : In x (pdel y p) -> x <> y.
+Proof.
+  unfold pdel; intros H; apply filter_In in H. destruct H as [_ H]. intros ->.
+  assert (E : seqid_eqb y y = true) by (apply seqid_eqb_eq; reflexivity). rewrite E in H. discriminate.
+Qed.
+
+Lemma In_pdel_all_not x l : forall p, In x (pdel_all l p) -> ~ In x l.
+Proof.
+  unfold pdel_all; induction l as [|y l IH]; cbn [fold_left In]; intros p H; [tauto|].
+  intros [<-|Hx].
+  - apply In_pdel_all in H. apply In_pdel_neq in H. congruence.
+  - exact (IH _ H Hx).
+Qed.
+
 Lemma In_padd x y p : In x (padd y p) -> x = y \/ In x p.
 Proof. unfold padd; destruct (mem y p); cbn [In]; intuition. Qed.
 
@@ -164,7 +178,8 @@ Record lists_spec (e : list seqid) (p : pset) (r : option seqid) (e1 : list seqi
   ls_above : forall s, r = Some s -> forall x, In x e1 -> sle s x;
   ls_safe  : forall s, r = Some s -> forall x, In x e -> le_tok x s -> In x p;
   ls_max   : forall s, r = Some s -> forall y, In y e -> (forall x, In x e -> le_tok x y -> In x p) -> sle y s;
-  ls_none  : r = None -> e = [] \/ exists m, In m e /\ ~ In m p /\ forall x, In x e -> sle m x
+  ls_none  : r = None -> e = [] \/ exists m, In m e /\ ~ In m p /\ forall x, In x e -> sle m x;
+  ls_free  : forall s, r = Some s -> forall x, In x e -> le_tok x s -> ~ In x p1
 }.
 
 Lemma trim_spec e p r e1 p1 : trim e p = (r, e1, p1) -> lists_spec e p r e1 p1 /\ StronglySorted sle e1.
@@ -200,6 +215,10 @@ Proof.
       inversion Hsrest as [|? ? _ Hall2]; subst. rewrite Forall_forall in Hall2.
       apply sle_cases. apply Hall2; exact Hy.
     + discriminate.
+    + intros s0 E x Hx Hle; inversion E; subst. intros Hp. apply In_pdel_all_not in Hp. apply Hp.
+      apply Hin in Hx. destruct Hx as [Hx|Hx]; [exact Hx|].
+      pose proof (Hcross s0 x Hs_pre Hx) as Hsx.
+      rewrite (le_not_sle_strict x s0 Hle Hsx). exact Hs_pre.
   - cbn [app] in *. split; [|rewrite Hsplit; exact Hsrest]. constructor.
     + intros x Hx. apply sort_perm; exact Hx.
     + intros x Hx; exact Hx.
@@ -216,6 +235,7 @@ Proof.
       * right. exists h. split; [apply Hin; right; left; reflexivity|]. split; [exact Hh|].
         intros x Hx. apply Hin in Hx. destruct Hx as [[]|[<-|Hx]]; [apply sle_refl|].
         inversion Hsrest as [|? ? _ Hall2]; subst. rewrite Forall_forall in Hall2. apply Hall2; exact Hx.
+    + discriminate.
 Qed.
 
 (* ---------- compaction ---------- *)
@@ -250,7 +270,7 @@ Proof.
   destruct (trim_spec _ _ _ _ _ Ht) as [Hs _].
   destruct (thr <? len e1).
   - destruct (compact e1 p1) as [e3 p3] eqn:Hc. intros H; inversion H; subst; clear H.
-    destruct (compact_spec _ _ _ _ Hc) as [C1 [C2 C3]]. destruct Hs as [S1 S2 S3 S4 S5 S6 S7 S8 S9]. constructor.
+    destruct (compact_spec _ _ _ _ Hc) as [C1 [C2 C3]]. destruct Hs as [S1 S2 S3 S4 S5 S6 S7 S8 S9 S10]. constructor.
     + intros x Hx. apply S1. apply C1. exact Hx.
     + intros x Hx. apply S2. apply C2. exact Hx.
     + intros x Hx. destruct (S3 x Hx) as [H1|H1]; [|right; exact H1].
@@ -261,6 +281,7 @@ Proof.
     + exact S7.
     + exact S8.
     + exact S9.
+    + intros s E x Hx Hle Hp. apply (S10 s E x Hx Hle). apply C2. exact Hp.
   - intros H; inversion H; subst; exact Hs.
 Qed.
 
